@@ -1,4 +1,5 @@
 import Restic.Proofs.C08_Index
+import Restic.Gen.Source
 /-!
 # C08 — The loaded index matches exactly the index files in the repository
 
@@ -21,6 +22,16 @@ open Restic.Model.Index Restic.Proofs.C08
 
 /-! ### T1: constants -/
 theorem cryptoExtension_eq : cryptoExtension = 32 := by decide
+
+/-- T1 (regenerated from master_index.go / index.go): `Load` prepares the incremental load, then
+    loads and inserts the missing files, then merges; `prepareIncrementalLoad` compares the loaded
+    ids with the listing and clears; `merge` tests `hasIdenticalEntry` before it adds -/
+theorem load_call_order :
+    Restic.Gen.MasterIndex_Load_calls.idxOf "mi.prepareIncrementalLoad" < Restic.Gen.MasterIndex_Load_calls.idxOf "mi.Insert"
+    ∧ Restic.Gen.MasterIndex_Load_calls.idxOf "mi.Insert" < Restic.Gen.MasterIndex_Load_calls.idxOf "mi.MergeFinalIndexes"
+    ∧ Restic.Gen.MasterIndex_Load_calls.getLast? = some "mi.MergeFinalIndexes"
+    ∧ "loadedIDs.Sub" ∈ Restic.Gen.prepareIncrementalLoad_calls ∧ "mi.clear" ∈ Restic.Gen.prepareIncrementalLoad_calls
+    ∧ Restic.Gen.Index_merge_calls.idxOf "hasIdenticalEntry" < Restic.Gen.Index_merge_calls.idxOf "m.add" := by decide
 
 /-! ### encode / decode -/
 
